@@ -27,7 +27,7 @@ THEOREMS = [
 TRUSTED_BASE = common.TRUSTED_BASE_COMMON
 ASSUMPTIONS = ["exactly-once and the multiset equality with the definition's denotation are not proved (no order-free "
                "semantics in this development); known findings D1 (join re-fires) and D8 (rerun offers a command)"]
-FAM = progs.family(p_jinja=0.4, n_tasks=(2, 8), p_loop=0.15, p_cmd=0.2, p_join=0.5, p_fail=0.15, w_ctrl=0.3, w_rerun=0.3)
+FAM = progs.family(p_pub_dict=0.3, p_second_transition=0.6, p_jinja=0.4, n_tasks=(2, 8), p_loop=0.15, p_cmd=0.2, p_join=0.5, p_fail=0.15, w_ctrl=0.3, w_rerun=0.3)
 
 
 def features(sess):
